@@ -2,6 +2,9 @@
 # run every check of a tier on the current tree, one line per check
 cd "$(dirname "$0")/.."
 TIER=${1:-quick}
+if [ -z "$VERIF_REPO" ] && [ -n "$(git -C /repo status --porcelain -- mysensors)" ]; then
+  echo "refusing: /repo has local modifications (a seeded change applied?)"; exit 9
+fi
 OUT=${RUNALL_OUT:-/tmp}
 mkdir -p "$OUT"
 for p in C01 C02 C03 C04 C05 C06 C07 C08 C09 C10 C11 C12 C13 C14 C15 C16 C17 C18 C19 C20; do
